@@ -293,8 +293,8 @@ impl<'a> Observer for Obs10<'a> {
                 ctx.idx,
             ));
         }
-        // orphaned placeholders / wide chars in last column probes
-        for row in ctx.post.grid.iter() {
+        // orphaned placeholders / wide chars in last column probes (sampled: it scans the grid)
+        for row in ctx.post.grid.iter().filter(|_| ctx.idx % 16 == 0) {
             if row.iter().any(|c| c.data.is_empty()) {
                 self.cov.hit("probe_grid_with_placeholder");
                 break;
